@@ -25,6 +25,8 @@ PROP_UNITS = {
     'C14': {'verus': ['float_cmp']},
     # C17: the raw-pointer shift kernel (out-of-bounds writes are Kani pointer checks)
     'C17': {'kani': ['int_shift']},
+    # C19: byte forms must be identical across word sizes = canonical (minimal) form, asserted by the int_bytes oracle
+    'C19': {'kani': ['int_bytes']},
     # C08: decode is proved complete by Kani (base_bit); float_from_prim composes it
     'C08': {'kani': ['base_bit'], 'verus': ['float_repr_round'],
             'undecided': ['float parser and printer (str / core::fmt)', 'convert_base (ln/exp at doubled precision, f32 '
